@@ -44,7 +44,7 @@ def arbitrary_state(c, now):
     return rec
 
 
-def crafted(reader_is_server, tname, body_hi=40):
+def crafted(reader_is_server, tname, body_hi=40, maxcount=2):
     """attacker datagram: every header field free, arbitrary body bytes, CRC correct for the region the
     header's length field designates (CRC-32 is public), arbitrary trailing bytes"""
     h = PacketHeader()
@@ -56,8 +56,8 @@ def crafted(reader_is_server, tname, body_hi=40):
     h.ack_bits = symint('a_ack_bits', 0, 2 ** 32 - 1)
     h.length = symint('a_length', 0, 65535)
     h.count = symint('a_count', 0, 255)
-    assume(h.count <= 2)                               # more inner messages repeat the same loop body
-    body, nb = rope.blob('a_body', 0, body_hi, declare=14)
+    assume(h.count <= maxcount)                        # more inner messages repeat the same loop body
+    body, nb = rope.blob('a_body', 0, body_hi, declare=5 * maxcount + 4)
     tail, nt = rope.blob('a_tail', 0, 24)
     hb = h.to_bytes()
     if bool(h.length <= nb):
@@ -77,7 +77,7 @@ def deliver(c, reader_is_server, raw):
 
 
 # ------------------------------------------------------------------ L1.1
-def l11(kind, tname):
+def l11(kind, tname, maxcount=2):
     now = symreal('now', lo=10, hi=4000000000)
     clock = proto.clock_at(now)
     c = endpoint(kind, clock)
@@ -85,7 +85,7 @@ def l11(kind, tname):
     handler_events = len(c.ctxt.handler.events) if kind == 'server' else 0
     before = proto.snapshot(c)
     dropped0 = c.stats.dropped
-    raw = crafted(kind == 'server', tname)
+    raw = crafted(kind == 'server', tname, body_hi=20 * maxcount, maxcount=maxcount)
     ok = deliver(c, kind == 'server', raw)
     check(ok is not True, 'a datagram not produced with the session key is not accepted', type=tname)
     same, names = proto.unchanged(before, proto.snapshot(c))
@@ -97,11 +97,11 @@ def l11(kind, tname):
     check(Or(ok is None, c.stats.dropped == dropped0 + 1), 'a forged datagram is counted as dropped')
 
 
-R.add('L1.1', l11, [dict(kind=k, tname=t) for k in ('server', 'client') for t in TYPES],
+R.add('L1.1', l11, lambda tier: [dict(kind=k, tname=t, maxcount=(2 if tier == 'quick' else 3)) for k in ('server', 'client') for t in TYPES],
       desc='attacker datagram of every packet type (free header, arbitrary body, valid CRC) vs keyed endpoint in an arbitrary state',
       expect=['a datagram not produced with the session key is not accepted',
               'a forged datagram leaves key, status, liveness clock, windows, queues and pending sends untouched'],
-      bounds='count <= 2 inner messages, body <= 40 + tail <= 24 arbitrary bytes, one pending datagram')
+      bounds='count <= 2 (thorough 3) inner messages, body <= 40 (60) + tail <= 24 arbitrary bytes, one pending datagram')
 
 
 # ------------------------------------------------------------------ L1.2 mutated genuine datagram
@@ -151,7 +151,7 @@ R.add('L1.2', l12, [dict(kind=k) for k in ('server', 'client')],
 
 
 # ------------------------------------------------------------------ L1.3 keyless endpoints
-def l13(kind, tname):
+def l13(kind, tname, maxcount=2):
     now = symreal('now', lo=10, hi=4000000000)
     clock = proto.clock_at(now)
     c = endpoint(kind, clock, key=None, status=Status.CONNECTING if kind == 'client' else Status.DISCONNECTED)
@@ -162,7 +162,7 @@ def l13(kind, tname):
     other = []
     c._recvChallengeResponse = lambda data: other.append('challenge')
     status0 = c.status
-    raw = crafted(kind == 'server', tname)
+    raw = crafted(kind == 'server', tname, body_hi=20 * maxcount, maxcount=maxcount)
     ok = deliver(c, kind == 'server', raw)
     check(len(c.incoming_messages) == 0, 'no application message is delivered from an unencrypted datagram', type=tname)
     check(len(c.received_fragments) == 0, 'no fragment is stored from an unencrypted datagram', type=tname)
@@ -177,11 +177,11 @@ def l13(kind, tname):
     check(c.session_key_bytes is None, 'still keyless')
 
 
-R.add('L1.3', l13, [dict(kind=k, tname=t) for k in ('server', 'client') for t in TYPES],
+R.add('L1.3', l13, lambda tier: [dict(kind=k, tname=t, maxcount=(2 if tier == 'quick' else 3)) for k in ('server', 'client') for t in TYPES],
       desc='CRC-valid datagram of every type / count / inner types vs a keyless endpoint',
       expect=['no application message is delivered from an unencrypted datagram', 'nothing but the expected hello type is dispatched',
               'at most the single hello is dispatched'],
-      bounds='count <= 2 inner messages, body <= 40 arbitrary bytes')
+      bounds='count <= 2 (thorough 3) inner messages, body <= 40 (60) arbitrary bytes')
 
 import sys as _sys  # noqa: E402
 for _l in R.lemmas.values():
